@@ -150,7 +150,7 @@ class ScaffoldNamer:
             scaffold.tag = "Haplotig"
             rank = 3
             self.haplotig_scaffolds.append(scaffold)
-        elif "Unloc" in fragment.tags:
+        elif "Unloc" in fragment.tags and "Contaminant" not in fragment.tags:
             if "Painted" not in scaffold_tags:
                 msg = f"Unloc in unpainted scaffold {original_name!r}: {fragment}"
                 raise ValueError(msg)
